@@ -58,6 +58,75 @@ def request_functions(ctx, eff):
     return seen
 
 
+IMMUTABLE_CALLS = {"str", "int", "bool", "float", "bytes", "tuple", "frozenset", "len", "repr", "ord", "chr", "abs", "min", "max", "sum", "hash"}
+STR_METHODS = {"strip", "lstrip", "rstrip", "lower", "upper", "join", "format", "replace", "decode", "encode", "title", "capitalize", "casefold",
+               "startswith", "endswith", "find", "rfind", "index", "count", "isdigit", "isalpha", "zfill", "ljust", "rjust", "center", "expandtabs",
+               "removeprefix", "removesuffix", "swapcase", "translate", "hex"}
+
+
+def _immutable_result(node, f, depth=0) -> bool:
+    """Is the value of this expression certainly an immutable object (safe to hand to several requests)?"""
+    if node is None or isinstance(node, (ast.Constant, ast.JoinedStr, ast.Compare)):
+        return True
+    if isinstance(node, ast.Tuple):
+        return all(_immutable_result(e, f, depth) for e in node.elts)
+    if isinstance(node, (ast.BoolOp,)):
+        return all(_immutable_result(e, f, depth) for e in node.values)
+    if isinstance(node, ast.IfExp):
+        return _immutable_result(node.body, f, depth) and _immutable_result(node.orelse, f, depth)
+    if isinstance(node, ast.UnaryOp):
+        return _immutable_result(node.operand, f, depth)
+    if isinstance(node, ast.BinOp):
+        return _immutable_result(node.left, f, depth) and (isinstance(node.op, ast.Mod) or _immutable_result(node.right, f, depth))
+    if isinstance(node, ast.Call):
+        if isinstance(node.func, ast.Name) and node.func.id in IMMUTABLE_CALLS:
+            return True
+        if isinstance(node.func, ast.Attribute) and node.func.attr in STR_METHODS:
+            return True
+        d = dotted(node.func) or ""
+        if d in ("re.compile", "os.path.join", "os.path.basename", "os.path.dirname", "os.path.normpath", "os.path.abspath", "os.fsencode",
+                 "os.fsdecode", "urllib.parse.quote", "urllib.parse.unquote", "html.escape"):
+            return True
+        return False
+    if isinstance(node, ast.Name) and depth < 3:
+        defs = [n for n in ast.walk(f.node) if isinstance(n, ast.Assign) and any(isinstance(t, ast.Name) and t.id == node.id for t in n.targets)]
+        if node.id in f.params:
+            return False
+        return bool(defs) and all(_immutable_result(d_.value, f, depth + 1) for d_ in defs) and not any(
+            isinstance(n, ast.AugAssign) and isinstance(n.target, ast.Name) and n.target.id == node.id and not _immutable_result(n.value, f, depth + 1)
+            for n in ast.walk(f.node))
+    return False
+
+
+def memo_obligations(ctx, rep, rule, eff, funcs):
+    """A memoising decorator keeps one result object per argument for the life of the process: everything it returns
+    is shared by all later requests (threads).  So a memoised function on the request path has to be a pure function of
+    its arguments returning an immutable value."""
+    for f in sorted(funcs, key=lambda x: x.qualname):
+        decos = []
+        for d in f.node.decorator_list:
+            dn = dotted(d.func if isinstance(d, ast.Call) else d) or ""
+            if dn.split(".")[-1] in ("lru_cache", "cache", "memoize", "memoized", "memoise", "memoised"):
+                decos.append(dn)
+        if not decos:
+            continue
+        problems = []
+        own = [n for n in ast.walk(f.node) if isinstance(n, ast.Return)]
+        for r in own:
+            if not _immutable_result(r.value, f):
+                problems.append(f"`return {norm(r.value)[:40]}` hands the same mutable object to every request that asks with the same arguments "
+                                "(a caller that changes it in place changes what later requests get)")
+                break
+        summ = eff.summary(f, f.cls)
+        bad = sorted(e for e in summ if e.startswith(("GLOBAL_WRITE", "FS_", "EXEC", "EVAL")) or e in ("TIME", "RANDOM"))
+        if bad:
+            problems.append(f"its result depends on more than its arguments ({', '.join(bad)[:60]}): later requests get what an earlier one saw")
+        if f.cls is not None and f.params[:1] == ["self"]:
+            problems.append("memoised per instance in a table shared by all instances")
+        rep.add(rule, f"{f.qualname}: @{decos[0]} result is safe to share", not problems, ctx.where(f), "; ".join(problems),
+                key=f"{rule}|memo|{f.qualname}")
+
+
 def shared_state_obligations(ctx, rep, rule, eff, funcs, sequential=False):
     """Module-level writes / in-place mutation of shared objects in request-path functions.
     sequential=True (history independence, C03): what happens inside a guarded one-time
@@ -83,6 +152,7 @@ def shared_state_obligations(ctx, rep, rule, eff, funcs, sequential=False):
                     return True
         return False
     prog = ctx.prog
+    memo_obligations(ctx, rep, rule, eff, funcs)
     # ------------------------------------------------------------------ R14a
     for f in sorted(funcs, key=lambda x: x.qualname):
         if f.module.name.startswith("simpletal"):
